@@ -40,6 +40,9 @@ def load_variants():
                 ks = [k for k in keys if not str(k).startswith("ANALYSIS-ERROR")]
                 if ks:
                     expect[pid] = ks[0].split("|")[0] + "|"
+            if not expect and meta.get("property"):
+                # nothing recorded as catching it: it must at least be reported by its own property's check (a seed never drops out)
+                expect = {meta["property"]: ""}
             if expect:
                 out.append({"id": "S-" + d, "kind": "breaking", "desc": "seeded: " + (meta.get("summary") or "")[:70], "edits": [],
                             "patchfile": pp, "expect": expect})
